@@ -117,7 +117,10 @@ PROPS = {
                     "condom'd calls (depth <= 3, some raising Z3Exception), GC initially enabled or disabled; a scheduling "
                     "decision after every LINE event (thorough: also INSTRUCTION events) inside _enter_z3/_exit_z3/"
                     "z3_condom/install/uninstall_sigint_handler; distinct = distinct digest of the (actor, code location) "
-                    "sequence; non-trivial = at least 2 actors and at least one context switch",
+                    "sequence; non-trivial = at least 2 actors and at least one context switch; full-stack phase (0.5% of the "
+                    "cases): the C20 workload (2..8 threads running solver histories under the baton scheduler) with the "
+                    "REAL gc switch, initially on or off: at every scheduling step and every Z3 check, guard counter >= 1 "
+                    "implies gc off, counter never negative; at quiescence the switch is what it was and the counter 0",
             "level_text": "seeded exploration of thread interleavings of the real GC-guard code at line (and bytecode) "
                           "granularity with the invariants checked after every scheduling step: a call in progress implies "
                           "GC disabled, the counter never goes negative, at quiescence the GC flag is what it was, no "
@@ -125,7 +128,8 @@ PROPS = {
             "level_note": "stubbed: _gc_lock (SimLock owned by the scheduler), the gc module flag (model object), log.error; "
                           "real: _enter_z3, _exit_z3, condom, SIGINT handler install/uninstall on the real main thread",
             "design_ref": "DESIGN.md 5 C19",
-            "phases": [{"opts": {"granularity": "line"}, "share": 0.8}, {"opts": {"granularity": "instruction"}, "share": 0.2}],
+            "phases": [{"opts": {"granularity": "line"}, "share": 0.795}, {"opts": {"granularity": "instruction"}, "share": 0.2},
+                       {"opts": {"granularity": "fullstack"}, "share": 0.005}],
             "technique": "deterministic simulation: baton-passing thread scheduler with sys.monitoring LINE/INSTRUCTION "
                          "pre-emption points and a scheduler-owned lock, invariants after every step"},
     "C20": {"engine": "threads", "quick": 500, "thorough": 60000, "limit_s": 120,
